@@ -139,6 +139,48 @@ def loop_header(ev, s, env, depth):
     raise Outside('loop at line %s is neither `for (i=0; i<N; i++)` nor an iterator loop' % s.get('l'))
 
 
+class _For(dict):
+    """a synthetic `for (<decl of v>; cond; v++) body` built from `<decl of v>; while (cond) {body; v++;}`"""
+    def __init__(self, wh, vardecl, stmts):
+        dict.__init__(self, k='ForStmt', ch=[], l=wh.get('l'))
+        self.r = {'init': vardecl, 'cond': wh.role('cond'), 'body': _Seq(stmts), 'inc': None}
+
+    def role(self, r):
+        return self.r.get(r)
+
+
+def while_as_for(s):
+    """`T v = …; while (v.HasData() | v < N) {…; v++;}` read as the equivalent for loop (None if the while loop does not have that shape)"""
+    if s['k'] != 'WhileStmt' or s.role('cond') is None or s.role('body') is None:
+        return None
+    body = s.role('body')
+    stmts = body['ch'] if body['k'] == 'CompoundStmt' else [body]
+    if not stmts:
+        return None
+    last = A.strip_casts(stmts[-1])
+    tgt = None
+    if last['k'] == 'UnaryOperator' and last.get('op') in ('post++', 'pre++'):
+        tgt = A.strip_casts(last['ch'][0])
+    elif last['k'] == 'CXXOperatorCallExpr' and (last.get('q') or '').endswith('operator++') and len(last['ch']) > 1:
+        tgt = A.strip_casts(last['ch'][1])
+    if tgt is None or tgt['k'] != 'DeclRefExpr' or tgt.get('d') is None:
+        return None
+    if any(x['k'] == 'ContinueStmt' for st in stmts for x in st.walk()):
+        return None
+    cond = A.strip_casts(s.role('cond'))
+    uses = (cond['k'] == 'CXXMemberCallExpr' and cond.receiver() is not None and A.strip_casts(cond.receiver()).get('d') == tgt['d']) or \
+        any(l.get('d') == tgt['d'] and l['k'] == 'DeclRefExpr' for (l, op, r) in A.rel_forms(cond, True))
+    if not uses:
+        return None
+    func = getattr(s, 'func', None)
+    if func is None:
+        return None
+    for v in func.walk():
+        if v['k'] == 'VarDecl' and v.get('d') == tgt['d']:
+            return _For(s, v, stmts[:-1])
+    return None
+
+
 class _If(dict):
     """a synthetic `if (cond) then else <rest>` built from `if (cond) {...; continue;} rest`"""
     def __init__(self, ifs, rest):
@@ -156,6 +198,12 @@ class _Seq(dict):
 
     def role(self, r):
         return None
+
+    def walk(self):
+        yield self
+        for c in self['ch']:
+            for x in c.walk():
+                yield x
 
 
 class Evaluator(object):
@@ -217,14 +265,17 @@ class Evaluator(object):
             return '%s.%s(%s)' % (rk, m, ','.join(self.key(a, env, depth) for a in n.args())) if rk != 'this' else '%s(%s)' % (m, ','.join(self.key(a, env, depth) for a in n.args()))
         if k == 'CallExpr':
             q = (n.get('q') or '').split('::')[-1]
-            if q == 'muscleMin':
-                return 'min(%s)' % ','.join(sorted(self.key(a, env, depth) for a in n.args()))
+            if q in ('muscleMin', 'muscleMax'):
+                return '%s(%s)' % (q[6:].lower(), ','.join(sorted(self.key(a, env, depth) for a in n.args())))
             return '%s(%s)' % (q, ','.join(self.key(a, env, depth) for a in n.args()))
         if k in ('CXXConstructExpr', 'CXXFunctionalCastExpr', 'CXXTemporaryObjectExpr') and len(n['ch']) == 1:
             return self.key(n['ch'][0], env, depth)
         if k == 'BinaryOperator':
             return '(%s%s%s)' % (self.key(n['ch'][0], env, depth), n.get('op'), self.key(n['ch'][1], env, depth))
         if k == 'ConditionalOperator':
+            mm = A.min_max(n)
+            if mm is not None:
+                return '%s(%s)' % (mm[0], ','.join(sorted(self.key(a, env, depth) for a in mm[1])))
             return '(%s?%s:%s)' % tuple(self.key(c, env, depth) for c in n['ch'])
         if k == 'CXXDynamicCastExpr':
             return self.key(n['ch'][0], env, depth)
@@ -314,6 +365,8 @@ class Evaluator(object):
                 return self.val(n['ch'][1], env, depth)
             if t is False:
                 return self.val(n['ch'][2], env, depth)
+            if A.min_max(n) is not None:
+                return atom(self.key(n, env, depth))         # (a < b) ? a : b  is  muscleMin(a, b)
             ck = self.key(n['ch'][0], env, depth)
             return palt(ck, self.under(ck, True, lambda: self.val(n['ch'][1], env, depth)), self.under(ck, False, lambda: self.val(n['ch'][2], env, depth)))
         if k in ('CXXConstructExpr', 'CXXFunctionalCastExpr') and len(n['ch']) == 1:
@@ -321,7 +374,7 @@ class Evaluator(object):
         if k in ('CXXMemberCallExpr', 'CallExpr'):
             q = n.get('q') or ''
             m = q.split('::')[-1]
-            if m == 'muscleMin':
+            if m in ('muscleMin', 'muscleMax'):
                 return atom(self.key(n, env, depth))
             if m == 'FlattenedSize' and k == 'CXXMemberCallExpr' and not n.args():
                 r = n.receiver()
@@ -434,6 +487,7 @@ class Evaluator(object):
         """symbolic return value of an integer function: single return, accumulator loops, if/else and switch with returns"""
         if g.body is None:
             raise Outside('no body for %s' % g.q)
+        env = self.with_args(g, env)
         r = self.stmt_value(g.body, dict(env), depth)
         if r is None:
             raise Outside('%s: no return value on some path' % g.q)
@@ -498,6 +552,9 @@ class Evaluator(object):
             env.update(rest_env)
             env['__alt__'] = env.get('__alt__', []) + [(ck, r1 if r1 is not None else r2, r1 is not None)]
             return None
+        if k == 'WhileStmt' and while_as_for(s) is not None:
+            s = while_as_for(s)
+            k = 'ForStmt'
         if k == 'ForStmt':
             body = s.role('body')
             var, count = loop_header(self, s, env, depth)
@@ -578,9 +635,21 @@ class Evaluator(object):
     # -------------------------------------------------------------------------------------------------- writers / readers
     def io_bytes(self, g, stream_param, env=None, depth=0, verbs=('Write',)):
         """bytes the function moves through the flattener/unflattener bound to parameter index `stream_param`"""
-        env = dict(env or {})
+        env = self.with_args(g, env or {})
         sd = g.params[stream_param]['d']
         return self.io_stmt(g.body, env, sd, depth, verbs, g)
+
+    def with_args(self, g, env):
+        """an unbound integral parameter is the symbol ARG<k>, k = its position among the integral parameters: the size function and the writer of one class are compared by the
+        role of their parameters, not by what each of them happens to call it"""
+        env = dict(env)
+        k = 0
+        for p_ in g.params:
+            if A.is_integral_type(g.ptype(p_).replace('const ', '').replace('&', '').strip()):
+                if p_.get('d') is not None and p_['d'] not in env:
+                    env[p_['d']] = atom('ARG%d' % k)
+                k += 1
+        return env
 
     def is_stream(self, n, env, sd):
         n = A.strip_casts(n) if n is not None else None
@@ -640,6 +709,9 @@ class Evaluator(object):
             a = self.under(ck, pol, lambda: self.io_stmt(th, dict(env), sd, depth, verbs, g))
             b = self.under(ck, not pol, lambda: self.io_stmt(el, dict(env), sd, depth, verbs, g)) if el is not None else {}
             return padd(tot, palt(ck, a, b) if pol else palt(ck, b, a))
+        if k == 'WhileStmt' and while_as_for(s) is not None:
+            s = while_as_for(s)
+            k = 'ForStmt'
         if k == 'ForStmt':
             body = s.role('body')
             var, count = loop_header(self, s, env, depth)
@@ -763,6 +835,7 @@ class Evaluator(object):
                         else:
                             pi = i if n['k'] != 'CXXOperatorCallExpr' else i - 1
                             env2 = self.bind_vals(h, n, env, depth)
+                            env2['__depth__'] = env.get('__depth__', 0)       # values read inside the helper are per iteration of the caller's loops
                             tot = padd(tot, self.io_stmt(h.body, env2, h.params[pi]['d'], depth + 1, verbs, h))
         return tot
 
